@@ -169,6 +169,10 @@ class CacheDict(UserDict):
     ...
 
 
+_MISSING = object()
+"""Marks a branch of the cache tree that does not exist (None and False are legitimate cached outputs)."""
+
+
 @dataclass
 class IndexedCache:
     """
@@ -290,7 +294,6 @@ class IndexedCache:
                 yield {}, v
             return
 
-        # Initialize result only once; avoid repeated copying where possible
         if result is None:
             result = copy(assignment)
         if cache is None:
@@ -299,63 +302,31 @@ class IndexedCache:
         # Fast return on empty cache node
         if isinstance(cache, CacheDict) and not cache:
             return
-        keys = self.keys
-        n_keys = len(keys)
-        key = keys[key_idx]
+        key = self.keys[key_idx]
+        is_last_key = key_idx + 1 >= len(self.keys)
 
-        # Follow the concrete chain as far as it exists without exceptions
-        while key in assignment:
-            next_cache = cache.get(assignment[key])
-            if next_cache is None:
-                # Try wildcard branch at this level
-                wildcard = cache.get(All)
-                if wildcard is not None:
-                    yield from self._yield_result(assignment, wildcard, key_idx, result)
-                else:
-                    self.search_count += 1
-                return
-            cache = next_cache
-            if key_idx + 1 < n_keys:
-                key_idx += 1
-                key = keys[key_idx]
-            else:
-                break
-
-        if key not in assignment:
-            # Prefer wildcard branch if available
-            wildcard = cache.get(All)
-            if wildcard is not None:
-                yield from self._yield_result(assignment, wildcard, key_idx, result)
-            else:
-                # Explore all branches at this level, copying only the minimal delta
-                for cache_key, cache_val in cache.items():
-                    local_result = copy(result)
-                    local_result[key] = cache_key
-                    yield from self._yield_result(assignment, cache_val, key_idx, local_result)
+        if key in assignment:
+            # An entry matches when it binds this key to the looked up value, or leaves it unbound (wildcard).
+            branches = [(_MISSING, cache.get(assignment[key], _MISSING)), (_MISSING, cache.get(All, _MISSING))]
         else:
-            # Reached the leaf (value or next dict) specifically specified by assignment
-            yield result, cache
+            # The lookup leaves this key open: every entry matches, whatever it binds the key to.
+            branches = [(_MISSING if cache_key is All else cache_key, cache_val) for cache_key, cache_val in cache.items()]
+
+        for bound_value, branch in branches:
+            if branch is _MISSING:
+                self.search_count += 1
+                continue
+            branch_result = result if bound_value is _MISSING else {**result, key: bound_value}
+            if is_last_key:
+                yield copy(branch_result), branch
+            else:
+                self.search_count += 1
+                yield from self.retrieve(assignment, branch, key_idx + 1, branch_result)
 
     def clear(self):
         self.cache.clear()
         self.seen_set.clear()
         self.flat_cache.clear()
-
-    def _yield_result(self, assignment: Dict, cache_val: Any, key_idx: int, result: Dict[int, Any]):
-        """
-        Internal helper to descend into cache and yield concrete results.
-
-        :param assignment: Original partial assignment.
-        :param cache_val: Current cache node or value.
-        :param key_idx: Current key index.
-        :param result: Accumulated assignment.
-        :return: Yields (assignment, value) when reaching leaves.
-        """
-        if isinstance(cache_val, CacheDict):
-            self.search_count += 1
-            yield from self.retrieve(assignment, cache_val, key_idx + 1, result)
-        else:
-            yield result, cache_val
 
 
 def yield_class_values_from_cache(cache: Dict[Type, IndexedCache], clazz: Type,
